@@ -88,7 +88,28 @@ CLIP_SPECS = [
     # a mesh that stores its face-face table: rings are still "shares a node", corner neighbours included, not "shares an edge"
     {'conv': 'ugrid', 'ny': 3, 'nx': 4, 'split': [[1, 1]], 'tables': ['face_face'], 'start_index': 1},
     {'conv': 'ugrid', 'ny': 3, 'nx': 4, 'tables': ['edge_node', 'edge_face', 'face_face']},
+    # meshes that list a node no face uses (and an edge to it that borders no face): never part of a clip, also when every face is kept
+    {'conv': 'ugrid', 'ny': 2, 'nx': 3, 'orphan': True}, {'conv': 'ugrid', 'ny': 2, 'nx': 3, 'tables': ['edge_node'], 'start_index': 1, 'orphan': True},
 ]
+
+
+def build(spec):
+    spec = dict(spec)
+    orphan = spec.pop('orphan', False)
+    ds = datasets.build(spec)
+    if orphan:
+        si = spec.get('start_index', 0)
+        n_old = ds.sizes['nMesh2_node']
+        x1, y1 = float(ds['Mesh2_node_x'].max()) + 3.0, float(ds['Mesh2_node_y'].max()) + 3.0
+        ds = ds.pad({'nMesh2_node': (0, 1)}, constant_values=0)
+        ds['Mesh2_node_x'].values[-1], ds['Mesh2_node_y'].values[-1] = x1, y1
+        if 'Mesh2_edge_nodes' in ds:
+            attrs = {k: dict(ds[k].attrs) for k in ds.variables}
+            ds = ds.pad({'nMesh2_edge': (0, 1)}, constant_values=0)
+            for k, a in attrs.items():
+                ds[k].attrs.update(a)
+            ds['Mesh2_edge_nodes'].values[-1] = [n_old + si, 0 + si]
+    return ds
 
 
 def _shared_parts(polys):
@@ -123,7 +144,7 @@ def geometries(ds):
 
 def gen_clip(tier, seed):
     for spec in CLIP_SPECS:
-        ds = datasets.build(spec)
+        ds = build(spec)
         for gname in geometries(ds):
             for buffer in ((0, 1, 2) if tier == 'quick' else (0, 1, 2, 3)):
                 yield {'spec': spec, 'geometry': gname, 'buffer': buffer}
@@ -134,8 +155,8 @@ def ring_grid(hit, buffer):
 
 
 def test_clip(inp):
-    spec = inp['spec']
-    ds = datasets.build(spec)
+    ds = build(inp['spec'])
+    spec = {k: v for k, v in inp['spec'].items() if k != 'orphan'}
     geom = geometries(ds)[inp['geometry']]
     ems = ds.ems
     polys = ems.polygons
@@ -183,7 +204,9 @@ def test_clip(inp):
         return f'kept faces are not renumbered contiguously in their original order: {[int(nf[f]) for f in keptF]}'
     keptN = sorted(set(n for f in keptF for n in faces[f]))
     nn = mask['new_node_index'].values
-    gotN = [n for n in range(len(node_x)) if numpy.isfinite(nn[n])]
+    if len(nn) != ds.sizes['nMesh2_node']:
+        return 'new_node_index has the wrong length'
+    gotN = [n for n in range(len(nn)) if numpy.isfinite(nn[n])]
     if gotN != keptN or [int(nn[n]) for n in keptN] != list(range(len(keptN))):
         return f'kept nodes / numbering wrong: {gotN} -> {[int(nn[n]) for n in gotN]}, expected {keptN} numbered in order'
     has_edges = 'edge' in shapes
